@@ -1,0 +1,42 @@
+//go:build verif
+
+package shell_operator
+
+import (
+	"context"
+
+	"github.com/deckhouse/deckhouse/pkg/log"
+
+	klient "github.com/flant/kube-client/client"
+	objectpatch "github.com/flant/shell-operator/pkg/kube/object_patch"
+	metricstorage "github.com/flant/shell-operator/pkg/metric_storage"
+	"github.com/flant/shell-operator/pkg/task"
+	"github.com/flant/shell-operator/pkg/task/queue"
+)
+
+// VerifAssemble builds a ShellOperator from the real pieces (real metric storages with private
+// registries, the given kube client, real event managers, real hook manager loading hooksDir)
+// without the HTTP servers. Queues are neither created nor started. Build tag verif only.
+func VerifAssemble(ctx context.Context, kubeClient *klient.Client, hooksDir string, tempDir string) (*ShellOperator, error) {
+	logger := log.NewNop()
+	op := NewShellOperator(ctx, WithLogger(logger))
+	op.MetricStorage = metricstorage.NewMetricStorage(op.ctx, "verif_", true, logger)
+	op.HookMetricStorage = metricstorage.NewMetricStorage(op.ctx, "verif_hook_", true, logger)
+	op.KubeClient = kubeClient
+	op.ObjectPatcher = objectpatch.NewObjectPatcher(kubeClient, logger)
+	op.SetupEventManagers()
+	op.setupHookManagers(hooksDir, tempDir)
+	if err := op.initHookManager(); err != nil {
+		return nil, err
+	}
+	return op, nil
+}
+
+// VerifTaskHandler is the real task handler of the queues.
+func (op *ShellOperator) VerifTaskHandler() func(task.Task) queue.TaskResult { return op.taskHandler }
+
+// VerifBootstrapMainQueue creates the main queue with the startup tasks (not started).
+func (op *ShellOperator) VerifBootstrapMainQueue() { op.bootstrapMainQueue(op.TaskQueues) }
+
+// VerifInitAndStartHookQueues creates and starts the named queues that do not exist yet.
+func (op *ShellOperator) VerifInitAndStartHookQueues() { op.initAndStartHookQueues() }
